@@ -89,14 +89,19 @@ IntOp(op, a, b) ==
     [] op = "&&" -> Bv(a # 0 /\ b # 0) [] op = "||" -> Bv(a # 0 \/ b # 0)
 
 \* Conversion of a scalar value to a scalar kind ("int" | "uint" | "float").
-\* float -> integer is fixed by no property for non-integral values: OOD.  uint is modelled
+\* float -> integer drops the fraction; for a positive value every convention (truncation toward zero, floor) gives the
+\* same integer, for a negative non-integral value no property fixes the choice: OOD.  uint is modelled
 \* as the non-negative integers (a negative value has no uint counterpart any property fixes: OOD).
 ConvK(k, x) == IF IsBad(x) THEN x
                ELSE IF k = "float" THEN ToF(x)
-               ELSE IF ~IsI(x) /\ x.e # 0 THEN OOD
-               ELSE LET i == IF IsI(x) THEN x.v ELSE x.n IN
+               ELSE IF ~IsI(x) /\ x.e # 0 /\ x.n < 0 THEN OOD
+               ELSE LET i == IF IsI(x) THEN x.v ELSE IF x.e = 0 THEN x.n ELSE x.n \div Pow2(x.e) IN
                     IF Abs(i) > MaxI THEN OOD
                     ELSE IF k = "uint" THEN (IF i < 0 THEN OOD ELSE UIntV(i)) ELSE IntV(i)
+
+\* Conversion where the language has no conversion written or inserted: a value stored into a variable of another kind
+\* (initialiser, assignment, return value).  No property says what happens to a fraction there: OOD.
+ConvA(k, x) == IF IsBad(x) THEN x ELSE IF k # "float" /\ ~IsI(x) /\ x.e # 0 THEN OOD ELSE ConvK(k, x)
 
 \* a op b where the operands are converted to kind ok and the result has kind rk
 \* (ok, rk come from NslTypes!ResolveBinary)
